@@ -3,6 +3,7 @@ open Ndn Ndn.Driver Ndn.C03 Ndn.C03.Text Ndn.C03.Drv
 
 structure St where
   last : Option Mk := none
+  held : Option Mk := none
   mkExpected : Option String := none   -- the model's prediction for the make op (compared at `cmp`)
 
 /-- the SignatureType a shipped validator insists on, by signer token -/
@@ -80,14 +81,34 @@ def stepC12 (st : St) (op : String) (got : String) : StepResult St :=
   | ["new"] => { st := {}, expected := some "ok" }
   | "mkd" :: _ =>
     let r := runMkd f got
-    { st := { last := r.built, mkExpected := some r.expected }, expected := none, cov := r.cov,
+    { st := { st with last := r.built, mkExpected := some r.expected }, expected := none, cov := r.cov,
       spec := r.spec.filter (fun s => s.clause == "builds" || s.clause == "no-panic"),
       nontrivial := (r.built.map (·.signed)).getD false }
   | "mki" :: _ =>
     let r := runMki f got
-    { st := { last := r.built, mkExpected := some r.expected }, expected := none, cov := r.cov,
+    { st := { st with last := r.built, mkExpected := some r.expected }, expected := none, cov := r.cov,
       spec := r.spec.filter (fun s => s.clause == "builds" || s.clause == "no-panic"),
       nontrivial := (r.built.map (fun m => m.signed || m.hasParams)).getD false }
+  | ["hold"] =>
+    match st.last with
+    | none => { st := st, expected := some "skip" }
+    | some mk => { st := { st with held := some mk }, expected := some "ok", cov := ["hold"] }
+  | ["valheld"] =>
+    match st.held with
+    | none => { st := st, expected := some "skip" }
+    | some mk =>
+      let (v, cov) := modelVerdict mk (newBufferReader mk.w)
+      let c := match mk.handedCov with | none => "na" | some h => if h == cov then "eq" else "ne"
+      let expected := if v == 'e' then "e same" else s!"{v} cov={c} same"
+      let hasVal := (validatorType mk.signer).isSome ∧ mk.signed
+      { st := st, expected := some expected, cov := ["valheld"],
+        spec :=
+          (if (got.splitOn " ").getLast? == some "changed" then
+            [⟨"stable", String.singleton mk.kind ++ "-" ++ (mk.signer.splitOn ":").head!,
+              "the bytes of a packet changed after the same signer instance built another packet"⟩] else []) ++
+          (if hasVal ∧ !got.startsWith "a" ∧ !isCrash got then
+            [⟨"accepts", "held-" ++ String.singleton mk.kind ++ "-" ++ (mk.signer.splitOn ":").head!,
+              s!"a packet is no longer accepted by the matching validator after the same signer instance built another packet: {tk got 40}"⟩] else []) }
   | ["cmp"] =>
     match st.mkExpected with
     | none => { st := st, expected := some "skip" }
